@@ -133,6 +133,7 @@ type Sched struct {
 	objs     []interface{ keyString(*Sched) string }
 	arrival  int
 	labels   map[uintptr]string
+	keep     []interface{}
 	Events   []string
 	Notes    []string
 	Steps    int
@@ -485,6 +486,7 @@ func (s *Sched) valLabel(v interface{}) string {
 		t := s.me()
 		l := fmt.Sprintf("v%s#%d", t.id, t.nops)
 		s.labels[key] = l
+		s.keep = append(s.keep, v) // no address reuse within an execution: labels are keyed by address
 		return l
 	case reflect.Struct:
 		if rv.NumField() == 0 {
